@@ -14,6 +14,7 @@ import (
 	stakingtypes "github.com/cosmos/cosmos-sdk/x/staking/types"
 
 	"github.com/cosmos/interchain-security/v7/x/ccv/provider/types"
+	ccvtypes "github.com/cosmos/interchain-security/v7/x/ccv/types"
 )
 
 // BeginBlockRD executes BeginBlock logic for the Reward Distribution sub-protocol.
@@ -189,6 +190,10 @@ func (k Keeper) AllocateConsumerRewards(ctx sdk.Context, consumerId string, allo
 		return types.ConsumerRewardsAllocation{}, err
 	}
 
+	if err := ccvtypes.VerifFail(ctx, "Allocate:GetCommunityTax"); err != nil {
+		return types.ConsumerRewardsAllocation{}, err
+	}
+
 	// compute rewards for validators
 	consumerRewards := alloc.Rewards
 	voteMultiplier := math.LegacyOneDec().Sub(communityTax)
@@ -210,6 +215,10 @@ func (k Keeper) AllocateConsumerRewards(ctx sdk.Context, consumerId string, allo
 		return types.ConsumerRewardsAllocation{}, err
 	}
 
+	if err := ccvtypes.VerifFail(ctx, "Allocate:SendCoinsFromModuleToModule"); err != nil {
+		return types.ConsumerRewardsAllocation{}, err
+	}
+
 	// allocate tokens to consumer validators
 	if err := k.AllocateTokensToConsumerValidators(
 		ctx,
@@ -225,6 +234,10 @@ func (k Keeper) AllocateConsumerRewards(ctx sdk.Context, consumerId string, allo
 		return types.ConsumerRewardsAllocation{}, err
 	}
 
+	if err := ccvtypes.VerifFail(ctx, "Allocate:AllocateTokensToConsumerValidators"); err != nil {
+		return types.ConsumerRewardsAllocation{}, err
+	}
+
 	// allocate remaining rewards to the community pool
 	remainingRewards, remainingChanges := remaining.TruncateDecimal()
 	err = k.distributionKeeper.FundCommunityPool(context.Context(ctx), remainingRewards, k.accountKeeper.GetModuleAccount(ctx, types.ConsumerRewardsPool).GetAddress())
@@ -235,6 +248,10 @@ func (k Keeper) AllocateConsumerRewards(ctx sdk.Context, consumerId string, allo
 			"chainId", chainId,
 			"error", err.Error(),
 		)
+		return types.ConsumerRewardsAllocation{}, err
+	}
+
+	if err := ccvtypes.VerifFail(ctx, "Allocate:FundCommunityPool"); err != nil {
 		return types.ConsumerRewardsAllocation{}, err
 	}
 
@@ -309,6 +326,7 @@ func (k Keeper) AllocateTokens(ctx sdk.Context) {
 					"consumer id", consumerId,
 					"error", err.Error(),
 				)
+				ccvtypes.VerifTrace(ctx, "PAllocateFail", "c", consumerId, "d", denom)
 				continue
 			}
 
@@ -329,6 +347,7 @@ func (k Keeper) AllocateTokens(ctx sdk.Context) {
 			}
 
 			writeCache()
+			ccvtypes.VerifTrace(ctx, "PAllocateOK", "c", consumerId, "d", denom)
 		}
 	}
 }
